@@ -22,9 +22,13 @@ var signerCallees = map[string]bool{
 	"validateRolesPresent": true, "validateProvenanceRole": true, "validatePartiesArePresent": true,
 	"validateSmartContractSigners": true, "ValidateOptionalParties": true,
 	"GetScopeSpecification": true, "GetContractSpecification": true, "GetRecordSpecification": true,
+	// the value-owner side of the scope endpoints
+	"GetScopeValueOwner": true, "ValidateScopeValueOwnersSigners": true,
 }
 
-var signerListVars = map[string]bool{"reqParties": true, "availableParties": true, "reqSigs": true, "reqRoles": true}
+var signerListVars = map[string]bool{"reqParties": true, "availableParties": true, "reqSigs": true, "reqRoles": true,
+	// "the ONLY change is the value owner": what is compared decides whether the owners must sign
+	"onlyChangeIsValueOwner": true}
 
 func emitSignerCalls(c *Ctx) (string, error) {
 	files, err := c.parseDir("x/metadata/keeper")
